@@ -81,7 +81,7 @@ theorem digitsVal_num (ds rest : Bytes) (h : ds.all isDigit = true) (hr : NoDigi
 
 /-- `strtoll` on `1*DIGIT` followed by a non-digit -/
 theorem strtoll_num (ds rest : Bytes) (hn : IsNum ds) (hr : NoDigitHead rest) :
-    strtoll (ds ++ rest) = { value := clampLL (decVal ds), noDigits := false,
+    strtoll (ds ++ rest) = { value := clampLL (decVal ds), rest := rest, noDigits := false,
                              erange := decide ((decVal ds : Int) > LLONG_MAX) || decide ((decVal ds : Int) < LLONG_MIN) } := by
   obtain ⟨hne, hd⟩ := hn
   match ds, hne with
@@ -92,9 +92,10 @@ theorem strtoll_num (ds rest : Bytes) (hn : IsNum ds) (hr : NoDigitHead rest) :
     rw [happ]
     simp only [strtoll, skipSpace_digit hd1, takeSign_digit hd1, strtollDigits, hd1, if_true, hdv, Bool.false_eq_true, if_false]
 
-/-- `httpHeaderParseOffset` on `1*DIGIT` followed by a non-digit: the decimal value, provided it fits `int64_t` -/
+/-- `httpHeaderParseOffset` on `1*DIGIT` followed by a non-digit: the decimal value and the length of the digit string,
+provided the value fits `int64_t` -/
 theorem parseOffset_num (ds rest : Bytes) (hn : IsNum ds) (hr : NoDigitHead rest) (hle : (decVal ds : Int) ≤ LLONG_MAX) :
-    parseOffset (ds ++ rest) = some ((decVal ds : Int)) := by
+    parseOffset (ds ++ rest) = some ((decVal ds : Int), ds.length) := by
   have e1 := LLONG_MAX_eq; have e2 := LLONG_MIN_eq
   have hcl : clampLL (decVal ds : Int) = decVal ds := by
     unfold clampLL
@@ -105,7 +106,8 @@ theorem parseOffset_num (ds rest : Bytes) (hn : IsNum ds) (hr : NoDigitHead rest
       · rfl
   have h1 : decide ((decVal ds : Int) > LLONG_MAX) = false := decide_eq_false (by omega)
   have h2 : decide ((decVal ds : Int) < LLONG_MIN) = false := decide_eq_false (by omega)
-  simp only [parseOffset, strtoll_num ds rest hn hr, hcl, h1, h2, Bool.or_self, Bool.false_and, Bool.false_eq_true, if_false]
+  have hlen : (ds ++ rest).length - rest.length = ds.length := by simp
+  simp only [parseOffset, strtoll_num ds rest hn hr, hcl, h1, h2, Bool.or_self, Bool.false_and, Bool.false_eq_true, if_false, hlen]
 
 /-- … and it is refused as "huge" when it does not -/
 theorem parseOffset_num_huge (ds rest : Bytes) (hn : IsNum ds) (hr : NoDigitHead rest) (hgt : (decVal ds : Int) > LLONG_MAX) :
@@ -116,6 +118,81 @@ theorem parseOffset_num_huge (ds rest : Bytes) (hn : IsNum ds) (hr : NoDigitHead
   have h0 : (LLONG_MAX == 0) = false := by decide
   simp only [parseOffset, strtoll_num ds rest hn hr, hcl, h1, Bool.true_or, Bool.true_and, h0, Bool.false_eq_true, if_false,
     beq_self_eq_true, Bool.or_true, if_true]
+
+/-- `parseBytePos` accepts `1*DIGIT` that ends exactly at the given length -/
+theorem parseBytePos_num (ds rest : Bytes) (hn : IsNum ds) (hr : NoDigitHead rest) (hle : (decVal ds : Int) ≤ LLONG_MAX) :
+    parseBytePos (ds ++ rest) ds.length = some ((decVal ds : Int)) := by
+  have hpo := parseOffset_num ds rest hn hr hle
+  have hkn : known (decVal ds : Int) = true := (known_iff _).mpr (by omega)
+  obtain ⟨hne, hd⟩ := hn
+  match ds, hne with
+  | d :: r, _ =>
+    have hd1 : isDigit d = true := by simp only [List.all_cons, Bool.and_eq_true] at hd; exact hd.1
+    have happ : (d :: r) ++ rest = d :: (r ++ rest) := rfl
+    rw [happ] at hpo ⊢
+    simp only [parseBytePos, List.length_cons, Nat.add_one_ne_zero, if_false, hd1, Bool.not_true, Bool.false_eq_true, hpo,
+      ne_eq, not_true_eq_false, hkn, if_true]
+
+theorem takeWhile_all (t : Bytes) : (t.takeWhile isDigit).all isDigit = true := by
+  induction t with
+  | nil => rfl
+  | cons c t ih =>
+    simp only [List.takeWhile_cons]
+    split
+    · rename_i hc; simp [hc, ih]
+    · rfl
+
+/-- the digits `digitsVal` consumes are the longest digit prefix -/
+theorem takeWhile_isNum {d : UInt8} {r : Bytes} (hd : isDigit d = true) : IsNum ((d :: r).takeWhile isDigit) := by
+  constructor
+  · simp [List.takeWhile_cons, hd]
+  · exact takeWhile_all _
+
+theorem dropWhile_noDigitHead (t : Bytes) : NoDigitHead (t.dropWhile isDigit) := by
+  induction t with
+  | nil => intro d r h; cases h
+  | cons c t ih =>
+    intro d r h
+    simp only [List.dropWhile_cons] at h
+    split at h
+    · exact ih d r h
+    · rename_i hc
+      injection h with h1 _; subst h1
+      simpa using hc
+
+/-- **`parseBytePos` is strict**: whatever it accepts is `1*DIGIT` of exactly the given length followed by a non-digit, and the
+value is the decimal value of those digits (at most INT64_MAX) -/
+theorem parseBytePos_strict {t : Bytes} {len : Nat} {v : Int} (h : parseBytePos t len = some v) :
+    ∃ ds rest, t = ds ++ rest ∧ IsNum ds ∧ NoDigitHead rest ∧ len = ds.length ∧ v = decVal ds ∧ (decVal ds : Int) ≤ LLONG_MAX := by
+  unfold parseBytePos at h
+  split at h
+  · cases h
+  · split at h
+    · cases h
+    · rename_i d r
+      split at h
+      · cases h
+      · rename_i hd
+        have hd1 : isDigit d = true := by simpa using hd
+        have hsplit : d :: r = (d :: r).takeWhile isDigit ++ (d :: r).dropWhile isDigit :=
+          (List.takeWhile_append_dropWhile).symm
+        have hn := takeWhile_isNum (r := r) hd1
+        have hr := dropWhile_noDigitHead (d :: r)
+        by_cases hbig : (decVal ((d :: r).takeWhile isDigit) : Int) > LLONG_MAX
+        · have := parseOffset_num_huge _ _ hn hr hbig
+          rw [← hsplit] at this
+          rw [this] at h; cases h
+        · have hpo := parseOffset_num _ _ hn hr (by omega)
+          rw [← hsplit] at hpo
+          rw [hpo] at h
+          simp only at h
+          split at h
+          · cases h
+          · rename_i hlen
+            split at h
+            · injection h with h
+              exact ⟨_, _, hsplit, hn, hr, by omega, h.symm, by omega⟩
+            · cases h
 
 theorem dashIndex_num (ds rest : Bytes) (hd : ds.all isDigit = true) : dashIndex (ds ++ 45 :: rest) = some ds.length := by
   induction ds with
@@ -138,16 +215,27 @@ def text : Rfc → Bytes
   | .from f => f ++ [45]
   | suffix n => 45 :: n
 
-/-- syntactically valid and representable: digit strings, `first ≤ last`, `last < INT64_MAX` (see `no_overflow_counterexample`),
-other numbers `≤ INT64_MAX` -/
+/-- syntactically valid (RFC 7233: digit strings, `first ≤ last`) -/
+def Syntactic : Rfc → Prop
+  | range f l => IsNum f ∧ IsNum l ∧ decVal f ≤ decVal l
+  | .from f => IsNum f
+  | suffix n => IsNum n
+
+/-- syntactically valid and representable: all numbers `≤ INT64_MAX` -/
 def Valid : Rfc → Prop
-  | range f l => IsNum f ∧ IsNum l ∧ decVal f ≤ decVal l ∧ (decVal l : Int) < LLONG_MAX
+  | range f l => IsNum f ∧ IsNum l ∧ decVal f ≤ decVal l ∧ (decVal l : Int) ≤ LLONG_MAX
   | .from f => IsNum f ∧ (decVal f : Int) ≤ LLONG_MAX
   | suffix n => IsNum n ∧ (decVal n : Int) ≤ LLONG_MAX
 
-/-- squid's internal representation -/
+theorem Valid.syntactic {r : Rfc} (h : r.Valid) : r.Syntactic := by
+  cases r with
+  | range f l => exact ⟨h.1, h.2.1, h.2.2.1⟩
+  | «from» f => exact h.1
+  | suffix n => exact h.1
+
+/-- squid's internal representation (a last-byte-pos of INT64_MAX is stored as INT64_MAX-1: no representation has that byte) -/
 def toSpec : Rfc → Spec
-  | range f l => ⟨decVal f, (decVal l : Int) + 1 - decVal f⟩
+  | range f l => ⟨decVal f, (if (decVal l : Int) = LLONG_MAX then (decVal l : Int) - 1 else (decVal l : Int)) + 1 - decVal f⟩
   | .from f => ⟨decVal f, -1⟩
   | suffix n => ⟨-1, decVal n⟩
 
@@ -159,17 +247,23 @@ def selects (r : Rfc) (clen b : Int) : Prop :=
   | .from f => (decVal f : Int) ≤ b
   | suffix n => clen - decVal n ≤ b
 
-theorem requests_iff_selects (r : Rfc) (hv : r.Valid) (clen b : Int) : r.toSpec.requests clen b ↔ r.selects clen b := by
+theorem requests_iff_selects (r : Rfc) (hv : r.Valid) (clen b : Int) (hc : clen ≤ LLONG_MAX) :
+    r.toSpec.requests clen b ↔ r.selects clen b := by
   cases r with
   | range f l =>
-    obtain ⟨_, _, hle, _⟩ := hv
+    obtain ⟨_, _, hle, hmax⟩ := hv
     simp only [toSpec, Spec.requests, selects]
     constructor
     · rintro ⟨h1, h2, h3⟩
       refine ⟨h1, h2, ?_⟩
-      rcases h3 with ⟨h3, _⟩ | ⟨_, h3, _⟩ | ⟨_, _, h3, h4⟩ <;> omega
+      rcases h3 with ⟨h3, _⟩ | ⟨_, h3, _⟩ | ⟨_, _, h3, h4⟩
+      · omega
+      · split at h3 <;> omega
+      · split at h4 <;> omega
     · rintro ⟨h1, h2, h3, h4⟩
-      exact ⟨h1, h2, Or.inr (Or.inr ⟨by omega, by omega, h3, by omega⟩)⟩
+      refine ⟨h1, h2, Or.inr (Or.inr ⟨by omega, ?_, h3, ?_⟩)⟩
+      · split <;> omega
+      · split <;> omega
   | «from» f =>
     simp only [toSpec, Spec.requests, selects]
     constructor
@@ -190,17 +284,25 @@ theorem requests_iff_selects (r : Rfc) (hv : r.Valid) (clen b : Int) : r.toSpec.
 end Rfc
 
 theorem parseLast_num (off : Int) (l tail : Bytes) (hl : IsNum l) (ht : NoDigitHead tail) (ho0 : 0 ≤ off)
-    (hle : off ≤ decVal l) (hmax : (decVal l : Int) < LLONG_MAX) :
-    parseLast off (l ++ tail) = .ok ⟨off, (decVal l : Int) + 1 - off⟩ := by
-  have e1 := LLONG_MAX_eq; have e2 := LLONG_MIN_eq
-  have hkn : known (decVal l : Int) = true := (known_iff _).mpr (by omega)
-  have hnlt : ¬ ((decVal l : Int) < off) := by omega
-  have hadd : add64 (decVal l : Int) 1 = .ok ((decVal l : Int) + 1) := add64_ok (by omega) (by omega)
-  have hsz : (HttpRange.mk off ((decVal l : Int) + 1)).size = .ok ((decVal l : Int) + 1 - off) := by
-    rw [size_ok (by simp only; omega) (by simp only; omega)]
-    have : (decVal l : Int) + 1 > off := by omega
-    simp [this]
-  simp only [parseLast, parseOffset_num l tail hl ht (by omega), hkn, Bool.not_true, Bool.false_eq_true, if_false, hnlt, hadd, hsz]
+    (hle : off ≤ decVal l) (hmax : (decVal l : Int) ≤ LLONG_MAX) :
+    parseLast off (l ++ tail) l.length =
+      .ok ⟨off, (if (decVal l : Int) = LLONG_MAX then (decVal l : Int) - 1 else (decVal l : Int)) + 1 - off⟩ := by
+  rcases parseLast_cases off (l ++ tail) l.length ho0 (by omega) with hi | ⟨last, hp, _, hok⟩
+  · unfold parseLast at hi
+    rw [parseBytePos_num l tail hl ht hmax] at hi
+    simp only at hi
+    have hnlt : ¬ ((decVal l : Int) < off) := by omega
+    simp only [hnlt, if_false] at hi
+    split at hi
+    · cases hi
+    · split at hi <;> cases hi
+  · rw [parseBytePos_num l tail hl ht hmax] at hp
+    injection hp with hp; subst hp
+    exact hok
+
+/-- a list item is a byte-range-spec or suffix-byte-range-spec of RFC 7233: `1*DIGIT "-" [1*DIGIT]` with
+`last-byte-pos ≥ first-byte-pos`, or `"-" 1*DIGIT`; nothing else (no white space, sign, or text after the digits) -/
+def IsRfcSpec (item : Bytes) : Prop := ∃ r : Rfc, r.Syntactic ∧ item = r.text
 
 /-- `HttpHdrRangeSpec::parseInit` reads a valid RFC spec (followed by anything that does not start with a digit) as that spec -/
 theorem parseSpec_rfc (r : Rfc) (hv : r.Valid) (tail : Bytes) (ht : NoDigitHead tail) :
@@ -212,19 +314,19 @@ theorem parseSpec_rfc (r : Rfc) (hv : r.Valid) (tail : Bytes) (ht : NoDigitHead 
     have hfpos : 0 < f.length := List.length_pos_iff.mpr hf.1
     have hlpos : 0 < l.length := List.length_pos_iff.mpr hl.1
     have hdash : NoDigitHead (45 :: (l ++ tail)) := by intro d r h; injection h with h _; subst h; decide
-    have hoff : parseOffset (f ++ 45 :: (l ++ tail)) = some ((decVal f : Int)) := parseOffset_num f _ hf hdash (by omega)
+    have hoff : parseBytePos (f ++ 45 :: (l ++ tail)) f.length = some ((decVal f : Int)) := parseBytePos_num f _ hf hdash (by omega)
     have hk : dashIndex (f ++ 45 :: (l ++ tail)) = some f.length := dashIndex_num f _ hf.2
     have hdrop : (f ++ 45 :: (l ++ tail)).drop (f.length + 1) = l ++ tail := by
       have : f ++ 45 :: (l ++ tail) = (f ++ [45]) ++ (l ++ tail) := by simp
       rw [this, List.drop_left' (by simp)]
-    have hkn1 : known (decVal f : Int) = true := (known_iff _).mpr (by omega)
     have hlen : (f ++ 45 :: l).length = f.length + 1 + l.length := by simp; omega
-    have hfirst : parseFirst (f ++ 45 :: (l ++ tail)) (f.length + 1 + l.length) f.length = .ok ⟨decVal f, (decVal l : Int) + 1 - decVal f⟩ := by
+    have hfirst : parseFirst (f ++ 45 :: (l ++ tail)) (f.length + 1 + l.length) f.length = .ok (Rfc.range f l).toSpec := by
       have hk1 : f.length + 1 < f.length + 1 + l.length := by omega
-      simp only [parseFirst, hoff, hkn1, Bool.not_true, Bool.false_eq_true, if_false, hk1, if_true, hdrop]
+      have hsub : f.length + 1 + l.length - (f.length + 1) = l.length := by omega
+      simp only [parseFirst, hoff, hk1, if_true, hdrop, hsub]
       exact parseLast_num _ l tail hl ht (by omega) (by omega) hmax
     have happ : f ++ 45 :: l ++ tail = f ++ 45 :: (l ++ tail) := by simp
-    rw [Rfc.text, happ, hlen, Rfc.toSpec]
+    rw [Rfc.text, happ, hlen]
     unfold parseSpec
     rw [if_neg (by omega)]
     obtain ⟨hfne, hfd⟩ := hf
@@ -243,13 +345,12 @@ theorem parseSpec_rfc (r : Rfc) (hv : r.Valid) (tail : Bytes) (ht : NoDigitHead 
     obtain ⟨hf, hmax⟩ := hv
     have hfpos : 0 < f.length := List.length_pos_iff.mpr hf.1
     have hdash : NoDigitHead (45 :: tail) := by intro d r h; injection h with h _; subst h; decide
-    have hoff : parseOffset (f ++ 45 :: tail) = some ((decVal f : Int)) := parseOffset_num f _ hf hdash hmax
+    have hoff : parseBytePos (f ++ 45 :: tail) f.length = some ((decVal f : Int)) := parseBytePos_num f _ hf hdash hmax
     have hk : dashIndex (f ++ 45 :: tail) = some f.length := dashIndex_num f _ hf.2
-    have hkn1 : known (decVal f : Int) = true := (known_iff _).mpr (by omega)
     have hlen : (f ++ [45]).length = f.length + 1 := by simp
     have hfirst : parseFirst (f ++ 45 :: tail) (f.length + 1) f.length = .ok ⟨decVal f, -1⟩ := by
       have hk1 : ¬ (f.length + 1 < f.length + 1) := by omega
-      simp only [parseFirst, hoff, hkn1, Bool.not_true, Bool.false_eq_true, if_false, hk1, e3]
+      simp only [parseFirst, hoff, hk1, if_false, e3]
     have happ : f ++ [45] ++ tail = f ++ 45 :: tail := by simp
     rw [Rfc.text, happ, hlen, Rfc.toSpec]
     unfold parseSpec
@@ -268,14 +369,100 @@ theorem parseSpec_rfc (r : Rfc) (hv : r.Valid) (tail : Bytes) (ht : NoDigitHead 
         exact hfirst
   | suffix n =>
     obtain ⟨hn, hmax⟩ := hv
-    have hoff : parseOffset (n ++ tail) = some ((decVal n : Int)) := parseOffset_num n _ hn ht hmax
     have hflen : ¬ ((45 :: n).length < 2) := by
       have : 0 < n.length := List.length_pos_iff.mpr hn.1
       simp only [List.length_cons]; omega
-    have hkn : known (decVal n : Int) = true := (known_iff _).mpr (by omega)
+    have hoff : parseBytePos (n ++ tail) ((45 :: n).length - 1) = some ((decVal n : Int)) := by
+      have : (45 :: n).length - 1 = n.length := by simp
+      rw [this]; exact parseBytePos_num n _ hn ht hmax
     simp only [Rfc.text, List.cons_append]
     unfold parseSpec
     rw [if_neg hflen]
-    simp only [parseSuffix, hoff, hkn, if_true, Rfc.toSpec, e3]
+    simp only [parseSuffix, hoff, Rfc.toSpec, e3]
+
+/-! ### the converse: whatever `parseInit` accepts is an RFC spec, written strictly -/
+
+theorem dashIndex_append_digits (ds rest : Bytes) (hd : ds.all isDigit = true) :
+    dashIndex (ds ++ rest) = (dashIndex rest).map (· + ds.length) := by
+  induction ds with
+  | nil => cases h : dashIndex rest <;> simp [h]
+  | cons d r ih =>
+    simp only [List.all_cons, Bool.and_eq_true] at hd
+    simp only [List.cons_append, dashIndex, digit_ne_dash hd.1, if_false, ih hd.2, List.length_cons]
+    cases dashIndex rest <;> simp; omega
+
+theorem dashIndex_zero {rest : Bytes} (h : dashIndex rest = some 0) : ∃ r, rest = 45 :: r := by
+  cases rest with
+  | nil => cases h
+  | cons c r =>
+    simp only [dashIndex] at h
+    split at h
+    · rename_i hc; exact ⟨r, by rw [hc]⟩
+    · cases hd : dashIndex r with
+      | none => simp [hd] at h
+      | some k => simp [hd] at h
+
+/-- **`parseInit` is strict**: an accepted item is, byte for byte, a valid RFC 7233 spec, and the stored spec is its meaning -/
+theorem parseSpec_ok_strict {field : Bytes} {flen : Nat} {s : Spec} (h : parseSpec field flen = .ok s) :
+    ∃ r : Rfc, r.Valid ∧ field.take flen = r.text ∧ s = r.toSpec := by
+  have e3 := Unknown_eq
+  unfold parseSpec at h
+  split at h
+  · cases h
+  · rename_i hflen
+    split at h
+    · -- suffix
+      rename_i rest
+      unfold parseSuffix at h
+      split at h
+      · cases h
+      · rename_i len hlen
+        injection h with h; subst h
+        obtain ⟨ds, rest', rfl, hn, _, hl, hv, hmax⟩ := parseBytePos_strict hlen
+        refine ⟨Rfc.suffix ds, ⟨hn, hmax⟩, ?_, ?_⟩
+        · have : flen = ds.length + 1 := by omega
+          rw [this, List.take_succ_cons, List.take_left' rfl]; rfl
+        · simp only [Rfc.toSpec, hv, e3]
+    · rename_i hnd
+      split at h
+      · cases h
+      · rename_i k hk
+        split at h
+        · rename_i hkf
+          unfold parseFirst at h
+          split at h
+          · cases h
+          · rename_i off hoff
+            obtain ⟨ds, rest1, rfl, hn, hr1, hkl, hv, hmax⟩ := parseBytePos_strict hoff
+            rw [dashIndex_append_digits ds rest1 hn.2] at hk
+            have hk0 : dashIndex rest1 = some 0 := by
+              cases hd : dashIndex rest1 with
+              | none => simp [hd] at hk
+              | some j => simp [hd] at hk; congr; omega
+            obtain ⟨rest2, rfl⟩ := dashIndex_zero hk0
+            have hdrop : (ds ++ 45 :: rest2).drop (k + 1) = rest2 := by
+              have : ds ++ 45 :: rest2 = (ds ++ [45]) ++ rest2 := by simp
+              rw [this, List.drop_left' (by simp; omega)]
+            split at h
+            · rename_i hk1
+              rw [hdrop] at h
+              have hob : 0 ≤ off ∧ off ≤ LLONG_MAX := parseBytePos_bounds hoff
+              rcases parseLast_cases off rest2 (flen - (k + 1)) hob.1 hob.2 with hi | ⟨last, hp, hle, hok⟩
+              · rw [hi] at h; cases h
+              · rw [hok] at h; injection h with h; subst h
+                obtain ⟨ds2, rest3, rfl, hn2, _, hl2, hv2, hmax2⟩ := parseBytePos_strict hp
+                refine ⟨Rfc.range ds ds2, ⟨hn, hn2, by omega, hmax2⟩, ?_, ?_⟩
+                · have hfl : flen = (ds ++ 45 :: ds2).length := by simp; omega
+                  have : ds ++ 45 :: (ds2 ++ rest3) = (ds ++ 45 :: ds2) ++ rest3 := by simp
+                  rw [this, hfl, List.take_left' rfl]; rfl
+                · simp only [Rfc.toSpec, hv, hv2]
+            · rename_i hk1
+              injection h with h; subst h
+              refine ⟨Rfc.from ds, ⟨hn, hmax⟩, ?_, ?_⟩
+              · have hfl : flen = (ds ++ [45]).length := by simp; omega
+                have : ds ++ 45 :: rest2 = (ds ++ [45]) ++ rest2 := by simp
+                rw [this, hfl, List.take_left' rfl]; rfl
+              · simp only [Rfc.toSpec, hv, e3]
+        · cases h
 
 end SquidModel.Range
